@@ -324,7 +324,8 @@ func ReadAlignment(f io.Reader, chnl chan FastaRecord, cErr chan error, cdone ch
 
 	}
 
-	if len(seqBuffer) > 0 {
+	// the last record is handled like every other one: a header that is not followed by any sequence is not skipped
+	if len(seqBuffer) > 0 || counter > 0 {
 		if counter > 0 && len(seqBuffer) != width {
 			cErr <- errors.New("different length sequences in input file: is this an alignment?")
 			return
@@ -436,7 +437,8 @@ func ReadEncodeAlignment(f io.Reader, hardGaps bool, chnl chan EncodedFastaRecor
 		}
 	}
 
-	if len(seqBuffer) > 0 {
+	// the last record is handled like every other one: a header that is not followed by any sequence is not skipped
+	if len(seqBuffer) > 0 || counter > 0 {
 		if counter > 0 && len(seqBuffer) != width {
 			cErr <- errors.New("different length sequences in input file: is this an alignment?")
 			return
@@ -563,7 +565,8 @@ func ReadEncodeScoreAlignment(f io.Reader, hardGaps bool, chnl chan EncodedFasta
 		}
 	}
 
-	if len(seqBuffer) > 0 {
+	// the last record is handled like every other one: a header that is not followed by any sequence is not skipped
+	if len(seqBuffer) > 0 || counter > 0 {
 		if counter > 0 && len(seqBuffer) != width {
 			cErr <- errors.New("different length sequences in input file: is this an alignment?")
 			return
@@ -674,7 +677,8 @@ func ReadEncodeAlignmentToList(f io.Reader, hardGaps bool) ([]EncodedFastaRecord
 		}
 	}
 
-	if len(seqBuffer) > 0 {
+	// the last record is handled like every other one: a header that is not followed by any sequence is not skipped
+	if len(seqBuffer) > 0 || counter > 0 {
 		if counter > 0 && len(seqBuffer) != width {
 			return []EncodedFastaRecord{}, errors.New("different length sequences in input file: is this an alignment?")
 		}
